@@ -16,7 +16,8 @@ import re
 from vlib import core
 
 HAVE_FWD = os.path.exists(os.path.join(core.HARNESS, "src", "bin", "h_fwd.rs"))
-BINS = ["h_fwdadm"] + (["h_fwd"] if HAVE_FWD else [])
+HAVE_FWDM = os.path.exists(os.path.join(core.HARNESS, "src", "bin", "h_fwdm.rs"))
+BINS = ["h_fwdadm"] + (["h_fwd"] if HAVE_FWD else []) + (["h_fwdm"] if HAVE_FWDM else [])
 LEVEL = "proof"
 MANIFEST = {
     "category": "proof",
@@ -36,7 +37,7 @@ def generate(ctx):
     """Regenerates the Gen modules C02 depends on. Returns list of refusal strings (empty = ok)."""
     from vlib import gen
     from rs2v import rs2v as R
-    metas, errors = gen.regen(ctx, ["Consts", "CltvChecks", "CfgChecks"])
+    metas, errors = gen.regen(ctx, ["Consts", "CltvChecks", "CfgChecks", "ChanUtilsFees", "TxBuilder"])
     errs = ["%s: %s" % kv for kv in sorted(errors.items())]
     out = os.path.join(core.COQ, "Gen", "FwdChecks.v")
     meta = list(getattr(ctx, "gen_meta", []) or [])
@@ -483,6 +484,8 @@ def _fwd_worker(args):
     import subprocess
     from props.c02 import fwdjudge as J, fwdmodel as FM
     binp, seed, first, count, out = args
+    if os.path.basename(binp) == "h_fwdm":
+        return _fwdm_worker(args)
     try:
         rc = subprocess.call([binp, "run", str(seed), str(first), str(count), out], cwd=os.path.dirname(out),
                              stdout=subprocess.DEVNULL, stderr=subprocess.DEVNULL, timeout=1700)
@@ -525,6 +528,66 @@ def _fwd_worker(args):
     return violating, agg, model_items, total
 
 
+def _fwdm_worker(args):
+    """One shard of h_fwdm (several concurrent forwards, dust band + feerate changes, late preimages)."""
+    import collections
+    import subprocess
+    from props.c02 import fwdjudge as J, fwdmjudge as JM
+    binp, seed, first, count, out = args
+    try:
+        rc = subprocess.call([binp, "run", str(seed), str(first), str(count), out], cwd=os.path.dirname(out),
+                             stdout=subprocess.DEVNULL, stderr=subprocess.DEVNULL, timeout=1700)
+    except subprocess.TimeoutExpired:
+        rc = 124
+    agg = collections.Counter()
+    violating, samples = [], []
+    if rc != 0 or not os.path.exists(out):
+        violating.append((first, {"harness": "h_fwdm"}, [{"key": "harness", "judge": "harness", "why": "h_fwdm exited with %s for scenarios %d..%d" % (rc, first, first + count - 1), "step": 0}], []))
+        return violating, agg, [("dust", samples)], 0
+    sc = J.parse(out)
+    total = 0
+    for idx in range(first, first + count):
+        recs = sc.get(idx)
+        if not recs:
+            violating.append((idx, {"harness": "h_fwdm"}, [{"key": "harness", "judge": "harness", "why": "no trace for scenario %d" % idx, "step": 0}], []))
+            continue
+        V, F, S = JM.judge(recs)
+        total += 1
+        for k, v in F.items():
+            if isinstance(v, int):
+                agg["m_" + k] += v
+            else:
+                agg["m_%s=%s" % (k, v)] += 1
+        if len(samples) < 40:
+            samples += S
+        if V:
+            ex = [" ".join([kind] + ["%s=%s" % kv for kv in d.items() if kv[0] != "raw"]) + " @%d" % step
+                  for (_, step, kind, d) in recs
+                  if kind not in ("MGRPERSIST",) and not (kind == "BLOCK" and not d.get("txs"))]
+            violating.append((idx, {"harness": "h_fwdm", "params": recs[0][3].get("raw", "")[:600]}, V, ex[-200:]))
+    if not violating:
+        os.remove(out)
+    return violating, agg, [("dust", samples)], total
+
+
+def dust_crosscheck(ctx, samples):
+    """The judge's own dust arithmetic (fwdmjudge.dust_sum) against the regenerated get_dust_exposure_stats of
+    Gen/TxBuilder.v on the HTLC sets met in the traces. Returns list of disagreements."""
+    if not samples:
+        return []
+    exprs = []
+    for (hs, f, dl, cdl, loc, rem) in samples:
+        lst = "[" + "; ".join("mkHTLCAmountDirection %s %d" % ("true" if o else "false", a) for (o, a) in hs) + "]"
+        exprs.append("(fst (get_dust_exposure_stats true %s %d None %d (mkChannelTypeFeatures false false)), fst (get_dust_exposure_stats false %s %d None %d (mkChannelTypeFeatures false false)))" % (lst, f, dl, lst, f, cdl))
+    vals = ctx.coq_eval("corr_dust", ["LdkV.Prim.U64", "LdkV.Gen.ChanUtilsFees", "LdkV.Gen.TxBuilder"], exprs, prelude="Import ListNotations.\nOpen Scope Z_scope.", shards=min(8, max(1, len(exprs) // 10)))
+    bad = []
+    for (hs, f, dl, cdl, loc, rem), v in zip(samples, vals):
+        got = [int(x) for x in re.findall(r"-?\d+", v)]
+        if got != [loc, rem]:
+            bad.append({"htlcs": hs, "feerate": f, "judge": [loc, rem], "generated": got})
+    return bad
+
+
 def trace_check(ctx, model_ok):
     """Runs the seeded scenarios of h_fwd in parallel, evaluates the judges of tools/props/c02/fwdjudge.py on
     every trace and checks that Model/Fwd.v accepts the mapped traces (tools/props/c02/fwdmodel.py).
@@ -534,11 +597,13 @@ def trace_check(ctx, model_ok):
     import time as _t
     from props.c02 import fwdmodel as FM
     shards = core.NPROC
-    per_round = 200 if ctx.tier == "quick" else 1000
+    per_round = 150 if ctx.tier == "quick" else 1000
+    per_round_m = 75 if ctx.tier == "quick" else 400
     rounds = 1 if ctx.tier == "quick" else int(os.environ.get("C02_THOROUGH_ROUNDS", "4"))
     binp = ctx.bin_path("h_fwd")
+    binm = ctx.bin_path("h_fwdm")
     agg = collections.Counter()
-    violating, items = [], []
+    violating, items, dust_samples = [], [], []
     total = 0
     t0 = _t.time()
     jobs = []
@@ -546,12 +611,18 @@ def trace_check(ctx, model_ok):
         for sh in range(shards):
             first = (rnd * shards + sh) * per_round
             jobs.append((binp, ctx.seed, first, per_round, os.path.join(ctx.tmp, "fwd_%d_%d.trace" % (rnd, sh))))
+            if HAVE_FWDM:
+                firstm = (rnd * shards + sh) * per_round_m
+                jobs.append((binm, ctx.seed, firstm, per_round_m, os.path.join(ctx.tmp, "fwdm_%d_%d.trace" % (rnd, sh))))
     with multiprocessing.Pool(shards) as pool:
         for (v, a, mi, n) in pool.imap_unordered(_fwd_worker, jobs):
             violating += v
             agg.update(a)
             total += n
-            if len(items) < (4000 if ctx.tier == "quick" else 20000):
+            if mi and mi[0][0] == "dust":
+                if len(dust_samples) < 400:
+                    dust_samples += mi[0][1]
+            elif len(items) < (4000 if ctx.tier == "quick" else 20000):
                 items += mi
     # the scripted reproduction of finding F1 (deterministic; reported as KNOWN-FINDING while it reproduces)
     from props.c02 import fwdjudge as J
@@ -566,7 +637,28 @@ def trace_check(ctx, model_ok):
     except Exception as ex:
         cov_script = ["error: %r" % (ex,)]
     agg["script1_violation_keys=" + ",".join(sorted(set(cov_script)))] += 1
-    violating.sort(key=lambda x: x[0])
+    # scripted cases: preimage learned before / after the close of a plain or spliced upstream channel
+    if HAVE_FWDM:
+        outs = os.path.join(ctx.tmp, "fwdm_splice.trace")
+        core.sh([binm, "splice", "0", "0", outs], cwd=ctx.tmp, timeout=600)
+        ncases = 0
+        try:
+            for (k, recs) in sorted(J.parse(outs).items()):
+                for (_, step, kind, kv) in recs:
+                    if kind == "SPLICE":
+                        ncases += 1
+                        if int(kv.get("claims", "0")) == 0 and kv.get("htlc_output") == "true":
+                            violating.append((k, {"harness": "h_fwdm", "script": "splice", "case": kv},
+                                              [{"key": "c:late-preimage-onchain", "judge": "c:claim-whenever-known (on chain)",
+                                                "why": "B learned the preimage %s the upstream commitment (splice state %s) confirmed, the HTLC has an output there, and B broadcast no claim for it" % (
+                                                    {"0": "before", "1": "right after", "2": "six blocks after"}.get(kv.get("timing"), "?"),
+                                                    {"0": "none", "1": "splice confirmed, not locked"}.get(kv.get("splice"), "?")), "step": 0}], []))
+                    elif kind == "PANIC":
+                        violating.append((k, {"harness": "h_fwdm", "script": "splice"}, [{"key": "harness", "judge": "harness/implementation panic", "why": kv.get("msg", "?")[:300], "step": 0}], []))
+        except Exception as ex:
+            violating.append((0, {"harness": "h_fwdm", "script": "splice"}, [{"key": "harness", "judge": "harness", "why": "splice cases: %r" % (ex,), "step": 0}], []))
+        agg["splice_cases"] = ncases
+    violating.sort(key=lambda x: (x[1].get("harness", ""), x[0]))
     items.sort(key=lambda x: x[0])
     ctx.timed("fwd_traces_s", _t.time() - t0)
     cov = dict(agg)
@@ -586,6 +678,11 @@ def trace_check(ctx, model_ok):
         cov["model_traces_checked"] = len(items)
         cov["model_checks"] = nchecks
         cov["model_mismatching_traces"] = len(mism)
+    if model_ok and dust_samples:
+        bad = dust_crosscheck(ctx, dust_samples[:400])
+        cov["dust_crosscheck_points"] = len(dust_samples[:400])
+        if bad:
+            mism.append({"dust_arithmetic_vs_generated": bad[:3]})
     return violating, cov, mism
 
 
@@ -664,8 +761,9 @@ def run(ctx):
         reported += 1
         ctx.violation("C02 fails on real nodes: %s: %s" % (v["judge"], v["why"][:300]),
                       {"broken": broken or "implementation-side trace judge", "judge": v["judge"], "scenario_index": idx, "scenario_params": params,
+                       "harness": params.get("harness", "h_fwd"),
                        "all_violations": V[:5], "trace_tail": ex,
-                       "replay_cmd": "%s one %d %d /tmp/c02.trace >/dev/null 2>&1; grep -v PERSISTFULL /tmp/c02.trace" % (ctx.bin_path("h_fwd"), ctx.seed, idx)},
+                       "replay_cmd": "%s one %d %d /tmp/c02.trace >/dev/null 2>&1; grep -v PERSISTFULL /tmp/c02.trace" % (ctx.bin_path(params.get("harness", "h_fwd")), ctx.seed, idx)},
                       True, key="fwd:" + v.get("key", v["judge"]))
     if tviol:
         ctx.coverage["fwd_violating_scenarios"] = len(tviol)
@@ -687,6 +785,16 @@ def replay(ctx, rep):
         from props.c02 import fwdjudge as J
         idx = int(rep["scenario_index"])
         outp = os.path.join(ctx.tmp, "replay_%d.trace" % idx)
+        if rep.get("harness") == "h_fwdm":
+            from props.c02 import fwdmjudge as JM
+            core.sh([ctx.bin_path("h_fwdm"), "one", str(rep.get("seed", ctx.seed)), str(idx), outp], cwd=ctx.tmp, timeout=600)
+            sc = J.parse(outp)
+            V, F, _ = JM.judge(sc.get(idx, []))
+            for l in open(outp, errors="replace"):
+                if " MGRPERSIST " not in l and not re.search(r"BLOCK height=\d+ txs=$", l.rstrip()):
+                    print(l.rstrip()[:300])
+            print("judges:", json.dumps(V, indent=1))
+            return 1 if V else 0
         if idx < 0:
             core.sh([ctx.bin_path("h_fwd"), "script1", "7", "0", outp], cwd=ctx.tmp, timeout=600)
             idx = 0
